@@ -2,7 +2,6 @@ package proxy
 
 import (
 	"fmt"
-	"os"
 
 	"go.minekube.com/gate/pkg/edition/java/forge"
 	"go.minekube.com/gate/pkg/edition/java/proto/packet/plugin"
@@ -54,10 +53,7 @@ func c24SchedFinal(x *sched.X, r *c24Rig, sent int) {
 	x.Outcome(fmt.Sprintf("%v q=%d", r.log, n))
 }
 
-func c24SchedPass(r *vrt.R) bool {
-	if os.Getenv("VERIF_PASS") != "sched" {
-		return false
-	}
+func c24SchedRun(r *vrt.R) {
 	schedrun.Run(r, []schedrun.Scenario{
 		{Name: "config-flush-vs-2msgs", Quick: 2, Thorough: -1, Body: func(x *sched.X) {
 			rig := c24NewRig("config")
@@ -110,7 +106,6 @@ func c24SchedPass(r *vrt.R) bool {
 		// completes the join.
 		{Name: "play-firstjoin-vs-2fml", Quick: 2, Thorough: -1, Body: c24FirstJoinBody},
 	})
-	return true
 }
 
 func c24FirstJoinBody(x *sched.X) {
